@@ -24,6 +24,24 @@ TIERS = {
     'quick': {'runs': 8000, 'det': 64, 'min_budget': 200},
     'thorough': {'runs': 200000, 'det': 2000, 'min_budget': 400},
 }
+PROBE_NAMES = [
+    'evaluation while another graph is recording',
+    'evaluation while its own graph is (still) the recording target',
+    'second or later reverse sweep on one forward evaluation',
+    'reverse sweep right after a reverse sweep that did not complete',
+    'evaluation right after a forward evaluation that did not complete',
+    'call right after a call in which an injected fault fired',
+    'forward evaluation after reverse sweeps',
+    'call after operations on another graph since this graph\'s previous call',
+    'forward evaluation at another kind/D/P than the previous one',
+    'replay with a kind/D/P other than the recording one',
+    'driver on a graph recorded with a Taylor polynomial',
+    'recording resumed after another graph recorded in between',
+    'recording resumed with trace_on',
+    'graph constructed while another graph is being recorded',
+    'operations on traced operands with recording off',
+    'trace_off through a graph that is not recording',
+]
 MAX_MINIMISE = 24
 MAX_REPLAYS = 200
 
@@ -348,7 +366,7 @@ def replay_regressions(prop):
 
 
 def build_evidence(prop, tier, base, summaries, det, wall, sim_wall, n_viol, n_known, jobs):
-    ops, armed, fired, natural, stats, modes, fams = {}, {}, {}, {}, {}, {}, {}
+    ops, armed, fired, natural, stats, modes, fams, probes = {}, {}, {}, {}, {}, {}, {}, {}
     transitions = set()
     digests = set()
     steps = 0
@@ -364,6 +382,7 @@ def build_evidence(prop, tier, base, summaries, det, wall, sim_wall, n_viol, n_k
         acc(fired, s['fired'])
         acc(natural, s['natural'])
         acc(stats, s['stats'])
+        acc(probes, s.get('probes', {}))
         modes[s['mode']] = modes.get(s['mode'], 0) + 1
         for f in s['families']:
             fams[f] = fams.get(f, 0) + 1
@@ -419,6 +438,8 @@ def build_evidence(prop, tier, base, summaries, det, wall, sim_wall, n_viol, n_k
             'calls_unchecked_by_relaxation': unchecked,
             'other_counters': other,
             'faults': {'armed': armed, 'fired': fired, 'natural': natural},
+            'situation_probes': {k: probes.get(k, 0) for k in PROBE_NAMES},
+            'situation_probes_at_zero': [k for k in PROBE_NAMES if not probes.get(k)],
             'abstract_transitions_reached': len(transitions),
             'abstract_transitions': sorted(transitions) if len(transitions) <= 400 else sorted(transitions)[:400],
             'invalid_plans': invalid,
